@@ -322,6 +322,11 @@ class SymFloat:
     def __abs__(self):
         return self.map(abs)
 
+    def __round__(self, ndigits=None):
+        if ndigits is not None and not isinstance(ndigits, int):
+            raise HarnessError("round() with a symbolic number of digits")
+        return self.map(lambda a: round(a, ndigits))
+
     def __neg__(self):
         return self.map(lambda a: -a)
 
